@@ -180,7 +180,7 @@ class Deseasonalizer(_SeriesToSeriesTransformer):
         self : an instance of self
         """
         self.check_is_fitted()
-        check_series(Z, enforce_univariate=True)
+        check_series(Z, enforce_univariate=True, allow_empty=True)
         # the seasonal components stay anchored at the start of the training
         # series, so that the phase of later data is not shifted
         return self
